@@ -70,12 +70,20 @@ def _worker(args):
             continue
         finally:
             faulthandler.cancel_dump_traceback_later()
+        r.setdefault('digests', {})[str(s)] = seed_digest(r)
         merge_agg(agg, r)
         if opts.get('deadline') and time.time() > opts['deadline']:
             agg['cut_short'] = True
             break
     agg['shapes'] = sorted(agg['shapes'])
     return agg
+
+
+def seed_digest(r):
+    return hashlib.sha1(json.dumps(
+        [r.get('runs'), r.get('events'), sorted(r.get('stats', {}).items()), r.get('trace_digests'),
+         sorted(r.get('shapes', [])), [[v['clause'], v['sig']] for v in r.get('violations', [])]],
+        sort_keys=True, default=str).encode()).hexdigest()[:16]
 
 
 def new_agg():
